@@ -136,6 +136,26 @@ CLAIMED["C21"] = (
     COMMON_NOTE + "patternToMatcher and matcher.Match are uninterpreted pure functions; filepath.Base/Dir/Join uninterpreted.",
     "contract-based deductive verification (+ bounded stand-in for two string-rewriting clauses)", "6/C21")
 
+CLAIMED["C01"] = (
+    "Proof of the decision kernels that make an incremental build skip a target: needsBuilding returns false ONLY IF the metadata file exists, "
+    "the stored config, rule, source and secret hashes each equal the current ones (and the current ones could be computed), every declared "
+    "output exists and no rebuild is forced — a path-sensitive postcondition over every path of the function; moveOutput reports an output as "
+    "unchanged only if a file with the same hash already exists at its real location. Kernel-only: equality of whole output trees over edit "
+    "histories quantifies over command execution and the file system and is not a contract; the rule/source hash functions themselves (C07-C09) "
+    "are not under contract yet.",
+    COMMON_NOTE + "File-system, xattr and hash reads (FileExists, PathExists, readRuleHashFromXattrs, RuleHash, sourceHash, secretHash, "
+    "PathHasher.Hash) are assumed functions of their arguments for the duration of one decision; RuleHash's memoisation is abstracted; "
+    "bytes.Equal is uninterpreted.",
+    "contract-based deductive verification (path-sensitive postcondition, all callees by assumed contract)", "6/C01")
+
+CLAIMED["C03"] = (
+    "Proof of the no-op / cut-off kernels: needsBuilding returns false whenever everything it compares is unchanged (so an unchanged tree runs "
+    "no command); moveOutput returns unchanged exactly when the existing file has the new file's hash, and call-site obligations show that "
+    "in that case nothing is renamed, removed or copied; otherwise the memoised hash is moved from the temporary to the real path (so dependents "
+    "see the new output hash). Kernel-only: that the SET of commands run across two invocations is minimal is a relation between process runs.",
+    COMMON_NOTE + "Same assumed functions as C01.",
+    "contract-based deductive verification (biconditional postconditions + call-site obligations)", "6/C03")
+
 NOT_APPLICABLE = {
     "C05": "liveness / whole-run exit status under all schedules: no per-call contract expresses it (safety fragment is under C04)",
     "C30": "OS process groups, signals and wall-clock bounds; goroutines and select are outside the sequential contract model",
